@@ -8,7 +8,7 @@ ID = "C04"
 META = {
     "bounds": "checked_div_rounded: every (dividend scale, n + divisor scale) class reachable with scales 0..=18 and n 0..=18 (703 classes; quick: boundary + seeded "
               "subset), all 8 modes, 4 sign classes, all coefficients, symbolic divisor; wrappers div_rounded / quantize / mul_rounded for all operand type "
-              "combinations and reference forms over scale triples (p, q, n) (quick: subset; thorough: all 6859 for Decimal/Decimal), n in 19..=255 for the rejection clause",
+              "combinations and reference forms over scale triples (p, q, n) (quick: boundary + seeded subset of 70 triples under every mode; thorough: all 6859 for Decimal/Decimal under two modes - one of Floor/Ceiling, one other - and every 8th triple under the other six), n in 19..=255 for the rejection clause",
     "outside_claim": ["opt-level / LLVM", "a rounded result equal to i128::MIN may be returned or signalled", "i128 operands equal to i128::MIN"],
     "assumptions": ["builtin models listed in coverage.builtin_models",
                     "contracts: i128_div_rounded (obligation C05 kernel cases), i128_shifted_div_rounded / i128_mul_div_ten_pow_rounded (C16/K4), "
@@ -62,12 +62,15 @@ def cases(ctx):
         trip = [(p, q, n) for p in range(19) for q in range(19) for n in range(19)]
     else:
         trip = triples(ctx, 60)
+    # thorough: all 6859 scale triples under two modes (one direction-dependent, by seed), every 8th triple under the other six
+    full_modes = [(1, 3)[ctx.seed % 2], (0, 2, 4, 5, 6, 7)[ctx.seed % 6]]
     for mode in modes_dd:
-        for chunk in range(0, len(trip), 200):
+        trip_m = trip if (not thorough or mode in full_modes) else trip[mode::8]
+        for chunk in range(0, len(trip_m), 200):
             out.append({"id": "div_rounded|dec-dec|vv|mode=%d|t%d" % (mode, chunk), "kind": "wrap", "meth": "div_rounded", "lty": "Decimal", "rty": "Decimal",
-                        "form": "vv", "mode": mode, "triples": trip[chunk:chunk + 200], "weight": 30})
+                        "form": "vv", "mode": mode, "triples": trip_m[chunk:chunk + 200], "weight": 30})
             out.append({"id": "mul_rounded|dec-dec|vv|mode=%d|t%d" % (mode, chunk), "kind": "mulr", "form": "vv", "mode": mode,
-                        "triples": trip[chunk:chunk + 200], "weight": 30})
+                        "triples": trip_m[chunk:chunk + 200], "weight": 30})
     small = triples(ctx, 6 if not thorough else 40)
     for form in ("rv", "vr", "rr"):
         out.append({"id": "div_rounded|dec-dec|%s" % form, "kind": "wrap", "meth": "div_rounded", "lty": "Decimal", "rty": "Decimal", "form": form,
